@@ -164,6 +164,17 @@ func c02Late(e *Env, f *fwd, m int) {
 	if !send(c.Choose("lateB", m+3)) {
 		return
 	}
+	if len(f.clients) > 1 && c.Choose("late-client-leaves", 3) == 2 {
+		// one client goes away while its requests are unanswered at the silent node: their answers,
+		// when they come, belong to nobody - in particular not to whoever uses the stream ids next
+		for _, cl := range f.clients {
+			if cl.Connected() && len(cl.Outstanding) > 0 {
+				cl.Disconnect()
+				e.Res.Stats["probe.c02.late.client_left_with_requests_outstanding"]++
+				break
+			}
+		}
+	}
 	wait := []time.Duration{0, 5 * time.Second, 25 * time.Second, 32 * time.Second, 41 * time.Second, 45 * time.Second, 55 * time.Second, 62 * time.Second, 75 * time.Second}[c.Choose("latewait", 9)]
 	target := w.Now() + wait
 	w.RunUntil(func() bool { return w.Now() >= target }, wait+time.Second)
